@@ -13,6 +13,7 @@ package main
 //	U UVB | U NOP | U BAD        UIDValidityBumped | Noop | an update of a type user.apply does not know
 //	S<i> LOGIN | SELECT <name> | NOOP | LOGOUT | APPEND <name> <flags> <lit> | STORE <seq> <+|-> <flag>
 //	     | COPY <seq> <name> | MOVE <seq> <name> | EXPUNGE | CREATE <name> | DELETE <name>
+//	     | SUBSCRIBE <name> | UNSUBSCRIBE <name>     (<seq> may be a sequence set: 1:*)
 //	X CHECK                      barrier, fresh session: LIST + EXAMINE/FETCH of every mailbox, logout
 //
 //	msg   = <rid>:<flags>:<lit>:<mbs>    flags = seen,flagged,… or -    mbs = rid+rid or - (x#1-1000 = x1+…+x1000)
@@ -53,8 +54,10 @@ package main
 //
 // Order of the streams: corpus/C06/*.txt, then cuDirected (one stream per update kind walking through every
 // reachable cell of the kind x variant table, every refused update followed by a valid one), then cuDirectedExtra
-// (spelling of flags; sizes of batches and of id lists around db.ChunkLimit), then the random
-// streams. The generator sends a valid, effective update right after every refused one (the pipeline goes on)
+// (spelling of flags; sizes of batches and of id lists around db.ChunkLimit), then cuDirectedPrepared (every
+// cell of kind x client-prepared state: mailboxes unsubscribed / deleted while subscribed / selected / holding
+// messages / with inferiors, messages flagged, \Deleted, expunged, copied by clients), then the random
+// streams (a share of their steps prepares an object by client commands and then sends a valid update for it). The generator sends a valid, effective update right after every refused one (the pipeline goes on)
 // and aims a fifth of its updates at a random cell of the table. Stats: table.<Kind>.<variant>,
 // table.cells-reachable, table.cells-zero (must be 0), judge.pipe.valid-after-refused.<Kind>.
 
@@ -332,6 +335,44 @@ func (r *cuRunner) mboxInternalID(rid string) (uint64, bool) {
 		return 0, false
 	}
 	return id, true
+}
+
+// mboxNameOf: the name the index has for the mailbox right now ("" = unknown remote id)
+func (r *cuRunner) mboxNameOf(rid string) string {
+	d, err := r.openDB()
+	if err != nil {
+		return ""
+	}
+	var n string
+	if err := d.QueryRow("SELECT name FROM mailboxes_v2 WHERE remote_id = ?", rid).Scan(&n); err != nil {
+		return ""
+	}
+	return n
+}
+
+// mboxRowRids: the remote ids of the messages of the mailbox with this name, in sequence order.
+func (r *cuRunner) mboxRowRids(name string) []string {
+	d, err := r.openDB()
+	if err != nil {
+		return nil
+	}
+	var id uint64
+	if err := d.QueryRow("SELECT id FROM mailboxes_v2 WHERE name = ?", name).Scan(&id); err != nil {
+		return nil
+	}
+	rows, err := d.Query(fmt.Sprintf("SELECT message_remote_id FROM `mailbox_message_%d` ORDER BY uid", id))
+	if err != nil {
+		return nil
+	}
+	defer rows.Close()
+	var out []string
+	for rows.Next() {
+		var v string
+		if rows.Scan(&v) == nil {
+			out = append(out, v)
+		}
+	}
+	return out
 }
 
 func (r *cuRunner) msgInternalID(rid string) (imap.InternalMessageID, bool) {
@@ -730,9 +771,13 @@ func (r *cuRunner) execSession(i int, f []string) (string, error) {
 			rids = []string{"-"}
 		}
 		return r.withDump(st + ":" + strings.Join(rids, ",") + r.settle())
-	case "DELETE":
-		rep := o.c.Cmd("DELETE " + cuQuoteName(f[1]))
-		return r.withDump(status(rep) + r.settle())
+	case "DELETE", "SUBSCRIBE", "UNSUBSCRIBE":
+		rep := o.c.Cmd(f[0] + " " + cuQuoteName(f[1]))
+		st := status(rep)
+		if f[0] == "DELETE" && st == "OK" && o.selected == f[1] {
+			o.selected = "" // State.Delete closes the snapshot of the session that deleted its own mailbox
+		}
+		return r.withDump(st + r.settle())
 	}
 	return "bad-step", fmt.Errorf("bad session step %v", f)
 }
@@ -1468,6 +1513,94 @@ func cuDirectedExtra() []cuNamedStream {
 	}
 }
 
+
+// ---- kind x client-prepared state ----------------------------------------------------------
+//
+// The STATE an update meets is not only what earlier updates made of the index: client commands get there first.
+// cuPrepStates: the states of the object an update names that only (or mostly) CLIENT commands produce, judged by
+// the judge on the index and the sessions the update met (counted for valid, effective updates only):
+//
+//	mailbox updates  subscribed | unsubscribed (UNSUBSCRIBE) | deleted-subscription (the mailbox's name is in
+//	                 deleted_subscriptions: a client deleted a subscribed mailbox of that name) | selected (by a live
+//	                 session) | holding-messages | rows-flagged-deleted (STORE +FLAGS \Deleted) | having-inferiors
+//	MailboxCreated / MailboxUpdated  name-deleted-subscription (the NEW name is in deleted_subscriptions) |
+//	                 name-client-deleted (a client deleted the mailbox that had the name; MailboxCreated only)
+//	message updates  deleted-in-one-mailbox | deleted-in-several-mailboxes (\Deleted set by clients) |
+//	                 expunged-still-known (a client expunged its last copy; the message row is still there) |
+//	                 flagged-by-client | in-selected-mailbox | in-several-mailboxes
+var cuPrepMboxStates = []string{"subscribed", "unsubscribed", "deleted-subscription", "selected", "holding-messages", "rows-flagged-deleted", "having-inferiors"}
+var cuPrepMsgStates = []string{"deleted-in-one-mailbox", "deleted-in-several-mailboxes", "expunged-still-known", "flagged-by-client", "in-selected-mailbox", "in-several-mailboxes"}
+
+// cuPrepReachable: the cells of kind x prepared state (all of them can be reached through client commands)
+var cuPrepReachable = map[string][]string{
+	"MailboxCreated":          {"name-deleted-subscription", "name-client-deleted"},
+	"MailboxDeleted":          cuPrepMboxStates,
+	"MailboxUpdated":          append(append([]string{}, cuPrepMboxStates...), "name-deleted-subscription"),
+	"MailboxIDChanged":        cuPrepMboxStates,
+	"MessagesCreated":         cuPrepMsgStates,
+	"MessageMailboxesUpdated": cuPrepMsgStates,
+	"MessageFlagsUpdated":     cuPrepMsgStates,
+	"MessageDeleted":          cuPrepMsgStates,
+	"MessageUpdated":          cuPrepMsgStates,
+	// (a message that is in a mailbox when its id changes: known finding row-remote-id-copy)
+	"MessageIDChanged": {"deleted-in-one-mailbox", "expunged-still-known", "flagged-by-client", "in-selected-mailbox"},
+}
+
+// cuDirectedPrepared: the directed streams that walk through every cell of kind x prepared state (run on every
+// check after cuDirectedExtra, whatever the seed; the setup is put in front). Every object is prepared by client
+// commands, then meets one valid update of each kind; after a MailboxDeleted the name is used again by a
+// MailboxCreated (the deletion must really be gone).
+func cuDirectedPrepared() []cuNamedStream {
+	five := func(prefix, mbs string) string { return fmt.Sprintf("U MSC 0 %s#1-5:-:l1:%s", prefix, mbs) }
+	return []cuNamedStream{
+		{"prepared-mailbox-deleted", []string{"S0 LOGIN", "S1 LOGIN",
+			"U MC p1 pa", "S0 UNSUBSCRIBE pa", "U MD p1", "U MD p1", "U MC p1b pa",
+			"U MC p2 pb", "S0 SELECT pb", "U MD p2", "S0 LOGIN", "U MC p2b pb",
+			"U MC p3 pc", "S0 APPEND pc - x1", "U MD p3", "U MC p3b pc",
+			"U MC p4 pd", "U MC p5 pd/in", "U MD p4", "U MC p4b pd",
+			"U MC p6 pe", "S0 DELETE pe", "U MD p6", "U MC p7 pe", "U MD p7", "U MC p7b pe",
+			"U MC p8 pf", "S0 APPEND pf - x1", "S0 APPEND pf - x2", "S0 SELECT pf", `S0 STORE 1 + deleted`, "S0 SELECT INBOX", "U MD p8", "U MC p8b pf",
+			"U MC p9 pg", "S1 UNSUBSCRIBE pg", "S1 DELETE pg", "U MD p9", "U MC p10 pg", "S1 UNSUBSCRIBE pg", "S1 SUBSCRIBE pg", "U MD p10",
+			// unsubscribed AND selected AND holding messages with inferiors
+			"U MC p11 ph", "U MC p12 ph/in", "S1 APPEND ph seen x1", "S1 SELECT ph", "S0 UNSUBSCRIBE ph", "U MD p11", "S1 LOGIN", "U MC p11b ph",
+			"X CHECK"}},
+		{"prepared-mailbox-updated", []string{"S0 LOGIN", "S1 LOGIN",
+			"U MC q1 qa", "S0 UNSUBSCRIBE qa", "U MU q1 qa2", "U MU q1 qa2",
+			"S0 SELECT qa2", "U MU q1 qa3", "S0 APPEND qa3 - x1", "U MU q1 qa4", `S0 STORE 1 + deleted`, "U MU q1 qa5",
+			"U MC q2 qa5/in", "U MU q1 qa6", "S1 SUBSCRIBE qa6", "U MU q1 qa7",
+			"U MC q3 qb", "S1 DELETE qb", "U MD q3", "U MU q1 qb", "U MU q1 qb2", "S1 UNSUBSCRIBE qb",
+			// the mailbox a client renamed-around: a new mailbox under the name of a deleted subscribed one
+			"U MC q4 qc", "S1 DELETE qc", "U MC q5 qc", "U MU q5 qc2", "U MD q4", "U MD q5",
+			"X CHECK"}},
+		{"prepared-mailbox-id-changed", []string{"S0 LOGIN", "S1 LOGIN",
+			"U MC r1 ra", "S1 UNSUBSCRIBE ra", "U MI @r1 r1a", "U MI @r1a r1a",
+			"S1 SELECT ra", "U MI @r1a r1b", "S1 APPEND ra - x1", "U MI @r1b r1c", `S1 STORE 1 + deleted`, "U MI @r1c r1d",
+			"U MC r2 ra/in", "U MI @r1d r1e", "S0 SUBSCRIBE ra", "U MI @r1e r1f",
+			"U MC r3 rb", "S0 DELETE rb", "U MD r3", "U MC r4 rb", "U MI @r4 r4a", "U MD r4a", "U MC r5 rb",
+			"U MD r1f", "X CHECK"}},
+		{"prepared-messages", []string{"S0 LOGIN", "S1 LOGIN",
+			// \Deleted in the one mailbox it is in
+			"U MC xa xa", "S0 SELECT xa", five("a", "xa"), `S0 STORE 1:5 + deleted`,
+			"U MFU a1 flagged", "U MMU a2 xa+mb2 seen", "U MSD a3", "U MSU 0 a4:seen:l1:xa", "U MSC 0 a5:-:l1:xa+mb2",
+			// \Deleted in both mailboxes it is in
+			"U MC xb xb", "U MC xc xc", "S0 SELECT xb", "S1 SELECT xc", five("b", "xb+xc"), `S0 STORE 1:5 + deleted`, `S1 STORE 1:5 + deleted`,
+			"U MFU b1 flagged", "U MMU b2 xb seen", "U MSD b3", "U MSU 0 b4:seen:l2:xb+xc", "U MSC 1 b5:-:l1:xb+xc+mb1",
+			// expunged by the client, the message itself is still known
+			"U MC xd xd", "S0 SELECT xd", five("c", "xd"), `S0 STORE 1:5 + deleted`, "S0 EXPUNGE",
+			"U MFU c1 flagged", "U MMU c2 xd seen", "U MSD c3", "U MSU 0 c4:seen:l1:xd", "U MSC 0 c5:-:l1:xd",
+			// flags set and cleared by clients
+			"U MC xe xe", "S0 SELECT xe", five("d", "xe"), `S0 STORE 1:5 + flagged`, `S0 STORE 2:3 + answered`, `S0 STORE 3 - flagged`,
+			"U MFU d1 seen", "U MMU d2 xe+mb2 flagged,seen", "U MSD d3", "U MSU 0 d4:flagged,answered:l1:xe", "U MSC 0 d5:-:l1:xe+mb2",
+			// copied and moved by clients
+			"U MC xf xf", "S0 SELECT xf", five("e", "xf"), "S0 COPY 1:5 mb1", "S0 MOVE 4 mb2",
+			"U MFU e1 flagged", "U MMU e2 mb1 seen", "U MSD e3", "U MSU 0 e4:seen:l1:xf", "U MSC 0 e5:-:l1:mb2",
+			"X CHECK"}},
+		{"prepared-message-id", []string{"S0 LOGIN",
+			"U MC xg xg", "S0 SELECT xg", "U MSC 0 g#1-3:-:l1:xg", `S0 STORE 3 + deleted`, "S0 EXPUNGE", `S0 STORE 1 + flagged`, `S0 STORE 2 + deleted`,
+			"U MSI @g3 g3x", "U MFU g3x seen", "U MSI @g1 g1x", "U MSD g1x", "U MSI @g2 g2x", "U MSD g2x", "X CHECK"}},
+	}
+}
+
 func (g *cuGen) fresh(prefix string) string {
 	g.nMbox++
 	return fmt.Sprintf("%s%d", prefix, g.nMbox)
@@ -1785,6 +1918,132 @@ func (g *cuGen) variant(run *cuRunner, kind, v string) string {
 	return ""
 }
 
+
+// mboxUpdateOn: a valid update of one of the kinds that name an existing mailbox, aimed at this one
+func (g *cuGen) mboxUpdateOn(rid string) string {
+	switch g.r.Intn(3) {
+	case 0:
+		return "U MD " + rid
+	case 1:
+		n := g.fresh("pbox")
+		g.names = append(g.names, n)
+		g.mboxName[rid] = n
+		return fmt.Sprintf("U MU %s %s", rid, n)
+	default:
+		nrid := g.fresh("px")
+		g.mboxRids = append(g.mboxRids, nrid)
+		return fmt.Sprintf("U MI @%s %s", rid, nrid)
+	}
+}
+
+// msgUpdateOn: a valid update of one of the kinds that name an existing message, aimed at this one
+func (g *cuGen) msgUpdateOn(run *cuRunner, rid string) string {
+	lit := g.msgLit[rid]
+	if lit == "" {
+		lit = Pick(g.r, []string{"l1", "l2", "l3"})
+	}
+	switch g.r.Intn(6) {
+	case 0:
+		return fmt.Sprintf("U MFU %s %s", rid, g.flags())
+	case 1:
+		return fmt.Sprintf("U MMU %s %s %s", rid, g.liveMbs(run), g.flags())
+	case 2:
+		return "U MSD " + rid
+	case 3:
+		return fmt.Sprintf("U MSU %d %s:%s:%s:%s", g.r.Intn(2), rid, g.flags(), lit, g.liveMbs(run))
+	case 4:
+		return fmt.Sprintf("U MSC %d %s:%s:%s:%s", g.r.Intn(2), rid, g.flags(), lit, g.liveMbs(run))
+	default:
+		g.nMsg++
+		return fmt.Sprintf("U MSI @%s mi%d", rid, g.nMsg)
+	}
+}
+
+// prepared: client commands that put a mailbox / a message into a state only clients produce, followed by a valid
+// connector update naming that object (nil = nothing to prepare in this state). The steps are sent one after the other.
+func (g *cuGen) prepared(run *cuRunner) []string {
+	r := g.r
+	i := r.Intn(g.nsess)
+	o := run.observer(i)
+	if o == nil || !o.alive {
+		return nil
+	}
+	if r.Chance(1, 2) {
+		// a mailbox
+		rid := g.liveMbox(run)
+		if rid == "" || rid == "0" {
+			return nil
+		}
+		name := run.mboxNameOf(rid)
+		if name == "" || name == cuRecoveryName || strings.Contains(name, " ") {
+			return nil
+		}
+		var pre []string
+		switch r.Intn(8) {
+		case 0, 1:
+			pre = []string{fmt.Sprintf("S%d UNSUBSCRIBE %s", i, name)}
+		case 2:
+			// deleted by the client while subscribed; the connector confirms and creates a mailbox of that name again
+			nrid := g.fresh("pb")
+			g.mboxRids = append(g.mboxRids, nrid)
+			g.mboxName[nrid] = name
+			return []string{fmt.Sprintf("S%d DELETE %s", i, name), "U MD " + rid, fmt.Sprintf("U MC %s %s", nrid, name), g.mboxUpdateOn(nrid)}
+		case 3:
+			nrid := g.fresh("pb")
+			g.mboxRids = append(g.mboxRids, nrid)
+			g.mboxName[nrid] = name
+			return []string{fmt.Sprintf("S%d UNSUBSCRIBE %s", i, name), fmt.Sprintf("S%d DELETE %s", i, name), fmt.Sprintf("U MC %s %s", nrid, name)}
+		case 4:
+			pre = []string{fmt.Sprintf("S%d SELECT %s", i, name)}
+		case 5:
+			pre = []string{fmt.Sprintf("S%d APPEND %s %s x1", i, name, g.flags()), fmt.Sprintf("S%d SELECT %s", i, name), fmt.Sprintf("S%d STORE 1 + deleted", i)}
+		case 6:
+			pre = []string{fmt.Sprintf("S%d CREATE %s/in%d", i, name, g.nMbox)}
+		default:
+			pre = []string{fmt.Sprintf("S%d UNSUBSCRIBE %s", i, name), fmt.Sprintf("S%d SUBSCRIBE %s", i, name)}
+		}
+		return append(pre, g.mboxUpdateOn(rid))
+	}
+	// a message of the mailbox the session has selected
+	if o.selected == "" {
+		return nil
+	}
+	rids := run.mboxRowRids(cuDecodeStepName(o.selected))
+	if len(rids) == 0 {
+		return nil
+	}
+	k := r.Intn(len(rids))
+	rid, seq := rids[k], k+1
+	other := "INBOX"
+	if len(g.names) > 0 {
+		other = Pick(r, g.names)
+	}
+	var pre []string
+	switch r.Intn(6) {
+	case 0:
+		pre = []string{fmt.Sprintf("S%d STORE %d + deleted", i, seq)}
+	case 1:
+		pre = []string{fmt.Sprintf("S%d COPY %d %s", i, seq, other), fmt.Sprintf("S%d STORE %d + deleted", i, seq)}
+	case 2:
+		pre = []string{fmt.Sprintf("S%d STORE %d + deleted", i, seq), fmt.Sprintf("S%d EXPUNGE", i)}
+	case 3:
+		pre = []string{fmt.Sprintf("S%d STORE %d + %s", i, seq, g.spell(Pick(r, []string{"seen", "flagged", "answered", "draft"})))}
+	case 4:
+		pre = []string{fmt.Sprintf("S%d STORE 1:* + deleted", i)}
+	default:
+		pre = []string{fmt.Sprintf("S%d MOVE %d %s", i, seq, other)}
+	}
+	return append(pre, g.msgUpdateOn(run, rid))
+}
+
+// cuDecodeStepName: the mailbox name a step token stands for
+func cuDecodeStepName(n string) string {
+	if n == "@REC" {
+		return cuRecoveryName
+	}
+	return n
+}
+
 // probe: a valid, effective update (sent right after every refused one: the pipeline must go on)
 func (g *cuGen) probe(run *cuRunner) string {
 	for _, k := range []string{Pick(g.r, []string{"MailboxCreated", "MessagesCreated", "MessageFlagsUpdated", "MailboxUpdated", "MessageMailboxesUpdated"}), "MailboxCreated"} {
@@ -1860,6 +2119,20 @@ func (g *cuGen) next(run *cuRunner) string {
 		return "U NOP"
 	case c < 77:
 		return "X CHECK"
+	case c < 83:
+		// an object prepared by client commands meets a valid update
+		if st := g.prepared(run); len(st) > 0 {
+			for _, x := range st[1:] {
+				g.queue = append(g.queue, x)
+				if strings.HasPrefix(x, "U ") {
+					g.uSteps = append(g.uSteps, x)
+				}
+			}
+			if strings.HasPrefix(st[0], "U ") {
+				g.uSteps = append(g.uSteps, st[0])
+			}
+			return st[0]
+		}
 	}
 	i := r.Intn(g.nsess)
 	o := run.observer(i)
@@ -1871,7 +2144,13 @@ func (g *cuGen) next(run *cuRunner) string {
 	if o.exists > 0 {
 		seq = strconv.Itoa(r.Range(1, o.exists))
 	}
-	switch k := r.Intn(20); {
+	switch k := r.Intn(24); {
+	case k >= 20:
+		// the commands that touch the subscription tables, and DELETE
+		if len(g.names) > 0 {
+			name = Pick(r, g.names)
+		}
+		return fmt.Sprintf("S%d %s %s", i, Pick(r, []string{"UNSUBSCRIBE", "UNSUBSCRIBE", "SUBSCRIBE", "DELETE"}), name)
 	case k < 5:
 		return fmt.Sprintf("S%d APPEND %s %s %s", i, name, g.flags(), Pick(r, []string{"x1", "x2"}))
 	case k < 10:
@@ -2192,10 +2471,27 @@ func runCuOracle(args []string) int {
 				holes = append(holes, "size:"+c)
 			}
 		}
+		// kind x client-prepared state (counted by the judge for valid, effective updates on the index and the
+		// sessions they met)
+		prepCells, prepZero := 0, 0
+		for _, k := range cuKinds {
+			for _, v := range cuPrepReachable[k] {
+				prepCells++
+				c := res.Stats["judge.p."+k+"."+v]
+				delete(res.Stats, "judge.p."+k+"."+v)
+				res.Stats["prep."+k+"."+v] = c
+				if c == 0 {
+					prepZero++
+					holes = append(holes, "prepared:"+k+"."+v)
+				}
+			}
+		}
+		res.Stats["prep.cells-reachable"] = prepCells
+		res.Stats["prep.cells-zero"] = prepZero
 		res.Stats["sizes.classes-zero"] = sizeHoles
 		res.Stats["table.cells-reachable"] = cells
 		res.Stats["table.cells-zero"] = zero
-		if zero > 0 || sizeHoles > 0 {
+		if zero > 0 || sizeHoles > 0 || prepZero > 0 {
 			fmt.Fprintln(os.Stderr, "kind x variant cells / size classes never exercised:", strings.Join(holes, " "))
 		}
 	}
@@ -2407,8 +2703,8 @@ func runCuOracle(args []string) int {
 		}
 		judged(run, "directed stream "+kind, false)
 	}
-	// then the dimensions that cut across the kinds: spelling of flags, sizes of batches
-	for _, ds := range cuDirectedExtra() {
+	// then the dimensions that cut across the kinds: spelling of flags, sizes of batches, states prepared by clients
+	for _, ds := range append(cuDirectedExtra(), cuDirectedPrepared()...) {
 		if !budgetLeft() {
 			break
 		}
